@@ -94,7 +94,7 @@ where
     let mut graphu = convert_graph(graph, weighted, &node_map);
     let partition = map_node_names_to_hashsets(&graphu);
     let mut modularity = partitions::modularity(&graphu, &partition, weighted, resolution).unwrap();
-    let m = graphu.size(weighted);
+    let m = sorted_edges(&graphu).iter().map(|e| e.weight).sum::<f64>();
     let (mut partition, mut inner_partition, _improvement) =
         compute_one_level(&graphu, m, &partition, resolution.unwrap_or(1.0), seed);
     let mut improvement = true;
@@ -318,11 +318,16 @@ fn get_degree_information(
     let mut degrees: HashMap<usize, f64> = HashMap::new();
     let mut stot: Vec<f64> = vec![];
 
+    // the weights are summed in a fixed edge order (not in hash-map order) so that a seeded
+    // run does not depend on how the hash maps of this particular graph instance are keyed
+    let nodes = graph.get_all_nodes();
     if graph.specs.directed {
-        // the `get_weighted_*` methods can be used here, whether or not the original graph
-        // was weighted because `set_all_edge_weights` has been called in `louvain_partitions`
-        in_degrees = graph.get_weighted_in_degree_for_all_nodes().unwrap();
-        out_degrees = graph.get_weighted_out_degree_for_all_nodes().unwrap();
+        in_degrees = nodes.iter().map(|n| (n.name, 0.0)).collect();
+        out_degrees = nodes.iter().map(|n| (n.name, 0.0)).collect();
+        for e in sorted_edges(graph) {
+            *out_degrees.get_mut(&e.u).unwrap() += e.weight;
+            *in_degrees.get_mut(&e.v).unwrap() += e.weight;
+        }
         stot_in = (0..partition.len())
             .into_iter()
             .map(|i| *in_degrees.get(&i).unwrap())
@@ -332,7 +337,12 @@ fn get_degree_information(
             .map(|i| *out_degrees.get(&i).unwrap())
             .collect();
     } else {
-        degrees = graph.get_weighted_degree_for_all_nodes();
+        degrees = nodes.iter().map(|n| (n.name, 0.0)).collect();
+        for e in sorted_edges(graph) {
+            // a self-loop counts twice, as in `get_node_weighted_degree`
+            *degrees.get_mut(&e.u).unwrap() += e.weight;
+            *degrees.get_mut(&e.v).unwrap() += e.weight;
+        }
         stot = (0..partition.len())
             .into_iter()
             .map(|i| *degrees.get(&i).unwrap())
@@ -428,7 +438,7 @@ where
         }
         new_graph.add_node(Node::from_name_and_attributes(i, nodes));
     });
-    graph.get_all_edges().iter().for_each(|e| {
+    sorted_edges(graph).iter().for_each(|e| {
         let com1 = node2com.get(&e.u).unwrap();
         let com2 = node2com.get(&e.v).unwrap();
         let new_graph_edge_weight = new_graph
@@ -460,7 +470,7 @@ where
     let hm: HashMap<usize, f64> = HashMap::new();
     let empty_hs = HashSet::new();
     let hs = nbrs.get(u).unwrap_or(&empty_hs);
-    hs.iter().fold(hm, |mut acc: HashMap<usize, f64>, v: &T| {
+    hs.iter().sorted().fold(hm, |mut acc: HashMap<usize, f64>, v: &T| {
         if u == v {
             return acc;
         }
@@ -469,6 +479,19 @@ where
         // *acc.get_mut(node2com.get(v).as_ref().unwrap()).unwrap() += edge.weight;
         acc
     })
+}
+
+/// The edges of a graph in a fixed order (by endpoints), independent of hash-map iteration order.
+fn sorted_edges<T, A>(graph: &Graph<T, A>) -> Vec<&Arc<Edge<T, A>>>
+where
+    T: Hash + Eq + Clone + Ord + Display + Send + Sync,
+    A: Clone + Send + Sync,
+{
+    graph
+        .get_all_edges()
+        .into_iter()
+        .sorted_by(|a, b| (&a.u, &a.v).cmp(&(&b.u, &b.v)))
+        .collect()
 }
 
 /// For a directed graph adds the weights of the edges from the predecessors of `u`
